@@ -30,7 +30,9 @@ RULE = ('(a) round trips: random dtype (incl. structured, big-endian, bool, comp
         'dask arrays) on all back-ends incl. direct_write, with the stored .npy objects (header fortran_order/shape/dtype and '
         'body bytes) compared with the model, and foreign .npy objects (Fortran order, format 1.0/2.0) read back; (h) arrays '
         'written in several parts (equal or different chunk layouts, offsets) and/or mirrored to two stores / two array names '
-        'by ONE dask.compute call and read back (whole, part by part, indexed) by one compute call. A case is non-trivial when it stores at least two chunks / has a non-empty '
+        'by ONE dask.compute call and read back (whole, part by part, indexed) by one compute call; (i) reads that do not match '
+        'what is stored (another dtype, merged / split chunk grid, chunks never written) with errors=<number> and errors=raise: '
+        'only MISSING chunks may be replaced by the default value. A case is non-trivial when it stores at least two chunks / has a non-empty '
         'selection / actually splits a dimension / has an underscore in the bucket / has a non-C layout of a >= 2 x 2 array / puts at least two graphs; distinct by its '
         'canonical input')
 ASSUMPTIONS = ['dask merges the graphs handed to one compute call by task name (modelled: of several requests with the same '
@@ -534,6 +536,8 @@ def run_ops(ctx, be, n):
 class _Chunk:
     def __init__(self, shape, hasobject):
         self.shape = tuple(shape)
+        self.ndim = len(self.shape)
+        self.size = int(np.prod(self.shape, dtype=np.int64)) if self.shape else 1
         self.dtype = np.dtype(object if hasobject else 'u1')
 
 
@@ -586,6 +590,8 @@ def run_names(ctx, n):
             impl = [0, nm, list(shp)]
         except (TypeError, ChunkStoreError) as e:
             impl = [err_code(e)]
+        except Exception as e:
+            impl = ['raised', type(e).__name__]
         model = [0, destr(mo[1]), mo[2]] if mo[0] == 0 else [mo[0]]
         if impl != model:
             ctx.disagree('op=chunk_metadata;impl=%s;model=%s' % (impl[0], model[0]), c, impl, model,
@@ -1411,6 +1417,90 @@ def multi_case(ctx, be, c, parts, meaning, mo):
 
 
 # ---------------------------------------------------------------------------------------------------
+# (i) reads that do not match what is stored: another dtype, another chunk grid over the same array, chunks that were
+#     never written -- errors=<number> may replace MISSING chunks only, never a chunk that is there but does not fit
+
+DT_PAIRS = [('<i4', '<f4'), ('<i4', '>i4'), ('u1', '?'), ('<f8', '<c8'), ('<u2', '<i2'), ('>f8', '<f8'), ('S3', 'S2')]
+
+
+def gen_mismatch_cases(ctx, n):
+    rng = ctx.rng
+    out = []
+    for i in range(n):
+        kind = ['npy', 's3'][i % 2]
+        chunks = rand_chunks(rng, allow0=False)
+        while not chunks:
+            chunks = rand_chunks(rng, allow0=False)
+        variant = rng.choice(['dtype', 'regrid', 'split', 'missing', 'none'])
+        dput, dget = rng.choice(DT_PAIRS) if variant == 'dtype' else (rng.choice(['<i4', '>f8', 'u1', '<c8']),) * 2
+        cput, cget, part = [list(c) for c in chunks], [list(c) for c in chunks], None
+        ax = rng.randrange(len(chunks))
+        if variant == 'regrid':
+            if len(cget[ax]) < 2:
+                variant = 'none'
+            else:
+                k = rng.randrange(len(cget[ax]) - 1)
+                cget[ax][k:k + 2] = [cget[ax][k] + cget[ax][k + 1]]
+        elif variant == 'split':
+            big = [k for k, v in enumerate(cget[ax]) if v >= 2]
+            if not big:
+                variant = 'none'
+            else:
+                k = rng.choice(big)
+                a = rng.randint(1, cget[ax][k] - 1)
+                cget[ax][k:k + 1] = [a, cget[ax][k] - a]
+        elif variant == 'missing':
+            if len(cput[ax]) < 2:
+                variant = 'none'
+            else:
+                part = [ax, rng.randint(1, len(cput[ax]) - 1)]      # only the first chunks of this axis are written
+                cput[ax] = cput[ax][:part[1]]
+        out.append((kind, dict(variant=variant, dput=dput, dget=dget, cput=cput, cget=cget, errors=rng.choice([0, 0, 'raise']))))
+    return out
+
+
+def run_mismatch_cases(ctx, be, cases):
+    nm = {'npy': 'x', 's3': 'b_k/x_y'}
+    mc = []
+    for kind, c in cases:
+        mc.append([72, [1, [[0, codes(nm[kind]), 7, 1, c['cput'], [], 0]],
+                        [[0, codes(nm[kind]), 7 if c['dput'] == c['dget'] else 8, c['cget'], [], []]], c['errors'] != 'raise']])
+    mos = ctx.model(mc)
+    for (kind, c), mo in zip(cases, mos):
+        mres = mo[2][0]
+        dput, dget = np.dtype(c['dput']), np.dtype(c['dget'])
+        pshape = tuple(sum(x) for x in c['cput'])
+        gshape = tuple(sum(x) for x in c['cget'])
+        # the model labels what is written by its own raveling (the written part, for variant 'missing')
+        plabels = np.arange(int(np.prod(pshape))).reshape(pshape)
+        xput = conv(dput, plabels)
+        sig = 'op=mismatch;backend=%s;variant=%s;errors=%s;' % (kind, c['variant'], 'raise' if c['errors'] == 'raise' else 'default')
+        store, name, keys = be.new(kind, gshape, dput, nm[kind])
+        with dask.config.set(**SYNC):
+            try:
+                store.put_dask_array(name, da.from_array(xput, chunks=tuple(tuple(x) for x in c['cput']))).compute()
+                out = np.asarray(store.get_dask_array(name, tuple(tuple(x) for x in c['cget']), dget, errors=c['errors']).compute())
+            except Exception as e:
+                out = e
+        be.done()
+        if mres[0] == 0:
+            exp = conv(dget, np.array(mres[1], dtype=np.int64).reshape(gshape))
+            if isinstance(out, Exception):
+                ctx.disagree(sig + 'symptom=raised:%s' % type(out).__name__, c, repr(out)[:200], mres[1][:8], 'read raised, the model has data')
+            elif not same(out, exp):
+                ctx.disagree(sig + 'symptom=wrong_data', c, out.ravel()[:8].tolist(), exp.ravel()[:8].tolist(),
+                             'data differ from the model (stored elements, default value only where a chunk is missing)')
+        elif not isinstance(out, Exception):
+            ctx.disagree(sig + 'symptom=data_instead_of_error', c, out.ravel()[:8].tolist(), mres,
+                         'a stored chunk that does not fit the request (dtype / shape) was answered with data instead of BadChunk')
+        elif c['errors'] != 'raise' and err_code(out) != mres[0]:
+            ctx.disagree(sig + 'symptom=error_class', c, repr(out)[:120], mres, 'error class differs from the model', kind='tie')
+        ctx.traces_validated += 1
+        ctx.note_case(('mm', kind, repr(c)), nontrivial=c['variant'] != 'none', sample=dict(op='mismatch', backend=kind, **c))
+        ctx.count('mismatch:' + c['variant'])
+
+
+# ---------------------------------------------------------------------------------------------------
 
 def run_witness(ctx, be, w):
     kind = w.get('kind')
@@ -1427,6 +1517,8 @@ def run_witness(ctx, be, w):
         run_layout_cases(ctx, be, [(w['backend'], w['case'])])
     elif kind == 'foreign':
         run_foreign_cases(ctx, be, [(w['backend'], w['case'])])
+    elif kind == 'mismatch':
+        run_mismatch_cases(ctx, be, [(w['backend'], w['case'])])
 
 
 def run(ctx):
@@ -1449,6 +1541,7 @@ def run(ctx):
             run_layout_cases(ctx, be, gen_layout_cases(ctx, ctx.scale(400, 4800)))
             run_foreign_cases(ctx, be, gen_foreign_cases(ctx, ctx.scale(120, 1500)))
             run_multi_cases(ctx, be, gen_multi_cases(ctx, ctx.scale(300, 3600)))
+            run_mismatch_cases(ctx, be, gen_mismatch_cases(ctx, ctx.scale(120, 1500)))
             if ctx.tier == 'thorough':
                 run_gc_exhaustive(ctx)
                 sample = [[7, [6, 5, z]] for z in (0, 7, 99999, 100000, -1, -12345, 10 ** 17)]
@@ -1498,6 +1591,8 @@ def replay(ctx, doc):
                 run_layout_cases(ctx, be, [(backend, case)])
             elif op == 'foreign':
                 run_foreign_cases(ctx, be, [(backend, case)])
+            elif op == 'mismatch':
+                run_mismatch_cases(ctx, be, [(backend, case)])
             elif op == 'normalise_bucket':
                 mo = ctx.model([[7, [5, codes(case['path'])]]])[0]
                 u = _normalise_bucket_name('http://127.0.0.1:9000' + case['path'])
